@@ -35,51 +35,6 @@ theorem RowHasCols.hasAll {r : Row} {cols c : Cols} (h : RowHasCols r cols)
   intro t ht
   exact (h t).mpr ((Cols.subset_iff c cols).mp hc t ht)
 
-/-! ### Static conditions on trees the iteration engine executes -/
-
-/-- All function applications inside the operation have the arity of their function. -/
-def UOp.arityOk : UOp → Bool
-  | .calc _ e => e.arityOk
-  | .sel p => p.arityOk
-  | .sort ts => ts.all (fun t => t.expr.arityOk)
-  | _ => true
-
-def UOp.isIdentity : UOp → Bool
-  | .identity => true
-  | _ => false
-
-/-- Trees the iteration engine is documented to execute: leaves with payloads, the six concrete
-unary operations, chains, materializations and transfers *between iteration engines*. -/
-def Rel.IterOK : Rel → Prop
-  | .leaf _ _ _ _ _ _ p _ => p = true
-  | .unary op t _ => Rel.IterOK t ∧ op.isIdentity = false ∧ op.arityOk = true
-  | .binary op l r _ =>
-    Rel.IterOK l ∧ Rel.IterOK r ∧ l.engine = r.engine ∧
-      (match op with
-       | .chain => True
-       | _ => False)
-  | .mat _ _ t => Rel.IterOK t
-  | .transfer _ _ t => Rel.IterOK t ∧ t.engine.kind = .iter
-  | .select _ _ _ _ _ _ _ _ t => Rel.IterOK t
-
-/-- A `RowMapping` really is a mapping: its rows are pairwise distinct on its key. -/
-def ItOK : Iterable → Prop
-  | .mapping k rows => rows.Pairwise (fun a b => a.proj k ≠ b.proj k)
-  | _ => True
-
-/-- `reg` names, for every marker allocation id, the rows a payload attached there must have. -/
-def Rel.RegOK (σ : Leaves) (reg : Nat → Option (List Row)) : Rel → Prop
-  | .leaf .. => True
-  | .unary _ t _ => Rel.RegOK σ reg t
-  | .binary _ l r _ => Rel.RegOK σ reg l ∧ Rel.RegOK σ reg r
-  | .mat oid _ t => reg oid = some (sem σ t) ∧ Rel.RegOK σ reg t
-  | .transfer oid _ t => reg oid = some (sem σ t) ∧ Rel.RegOK σ reg t
-  | .select oid _ _ _ _ _ _ _ t => reg oid = some (sem σ t) ∧ Rel.RegOK σ reg t
-
-/-- Every payload in the store holds the rows registered for its marker. -/
-def StoreOK (σ : Leaves) (reg : Nat → Option (List Row)) (s : ExecState) : Prop :=
-  ∀ oid it, s.payload oid = some it → ItOK it ∧ ∃ rows, reg oid = some rows ∧ it.rows σ = .ok rows
-
 theorem StoreOK.log {σ : Leaves} {reg : Nat → Option (List Row)} {s : ExecState}
     (h : StoreOK σ reg s) (log : List Nat) : StoreOK σ reg { s with log := log } := h
 
@@ -505,20 +460,6 @@ theorem exec_correct (σ : Leaves) (reg : Nat → Option (List Row)) :
     exact ⟨it, s1, by simp only [h1], by simpa [sem] using h2, h3, h4⟩
 
 /-! ### Consistent marker ids: a registry exists -/
-
-/-- The marker nodes of a tree: allocation id and the rows a payload there must hold. -/
-def Rel.markers (σ : Leaves) : Rel → List (Nat × List Row)
-  | .leaf .. => []
-  | .unary _ t _ => Rel.markers σ t
-  | .binary _ l r _ => Rel.markers σ l ++ Rel.markers σ r
-  | .mat oid _ t => (oid, sem σ t) :: Rel.markers σ t
-  | .transfer oid _ t => (oid, sem σ t) :: Rel.markers σ t
-  | .select oid _ _ _ _ _ _ _ t => (oid, sem σ t) :: Rel.markers σ t
-
-/-- Marker nodes with the same allocation id (the same Python object) have the same content.
-Holds trivially when ids are pairwise distinct, and for shared sub-trees. -/
-def Rel.MarkersConsistent (σ : Leaves) (r : Rel) : Prop :=
-  ∀ p q, p ∈ r.markers σ → q ∈ r.markers σ → p.1 = q.1 → p.2 = q.2
 
 def regOf (m : List (Nat × List Row)) : Nat → Option (List Row) :=
   fun o => (m.find? (fun p => p.1 == o)).map (·.2)
